@@ -13,6 +13,9 @@ from elexmodel.logger import getModelLogger
 from elexmodel.models import BaseElectionModel
 
 warnings.filterwarnings("error", category=UserWarning, module="cvxpy")
+# recent cvxpy versions attribute their warnings to the first caller outside of cvxpy (for us that is elexsolver),
+# so the module filter above no longer sees them: also catch the inaccuracy warning by its message
+warnings.filterwarnings("error", category=UserWarning, message="Solution may be inaccurate")
 
 PredictionIntervals = namedtuple("PredictionIntervals", ["lower", "upper", "conformalization"], defaults=(None,) * 3)
 
